@@ -94,7 +94,7 @@ func TestC08Replay(t *testing.T) {
 		config.Server.Permissions.Users = nil
 		forms := []string{"absolute"}
 		if ci%4 == 0 {
-			forms = append(forms, "relative", "peruser")
+			forms = append(forms, "relative", "peruser", "lockedout")
 		}
 		for _, form := range forms {
 			name := "vuser"
@@ -103,6 +103,12 @@ func TestC08Replay(t *testing.T) {
 				config.Server.Permissions.Default = []string{"^/.*"}
 				config.Server.Permissions.Users = map[string][]string{"alice": rules}
 				name = "alice"
+			}
+			if form == "lockedout" {
+				// an account with an empty rule list of its own is locked out, however permissive the default rules are
+				config.Server.Permissions.Default = []string{"^/.*"}
+				config.Server.Permissions.Users = map[string][]string{"bob": {}, "alice": rules}
+				name = "bob"
 			}
 			got := []string{}
 			u, err := New(name, "harness")
@@ -132,6 +138,9 @@ func TestC08Replay(t *testing.T) {
 			}
 			sort.Strings(got)
 			want := append([]string{}, c.Served...)
+			if form == "lockedout" {
+				want = nil
+			}
 			sort.Strings(want)
 			if strings.Join(got, "|") != strings.Join(want, "|") {
 				if len(bad) < 200 {
